@@ -176,6 +176,15 @@ func init() {
 			c09Case(c, ref.ToJSON(a), ref.ToJSON(b), prof)
 		},
 	})
+	p.Strata = append(p.Strata, mon.Stratum{
+		Name: "long-arrays",
+		N:    qt(3000, 300000),
+		Run: func(c *mon.Ctx, i int) {
+			x, y := gen.LongArrayPair(c.R)
+			c.Feature("long_array_pairs")
+			c09Case(c, ref.ToJSON(gen.Wrap(x, i%4)), ref.ToJSON(gen.Wrap(y, i%4)), gen.PTiny)
+		},
+	})
 	for w, name := range []string{"root", "under-key", "in-array", "array-in-object-in-array"} {
 		w := w
 		p.Strata = append(p.Strata, mon.Stratum{
